@@ -115,6 +115,31 @@ func (x *ctx) pair(c Case) {
 	if !bytes.Equal(kk[:], k) || !bytes.Equal(uu[:], u) {
 		r.Violate("x25519/ScalarMult/mutates-input", "inputs modified", c)
 	}
+	// every aliasing pattern of ScalarMult's three arrays
+	{
+		a := kk
+		if pan, msg := mon.Try(func() { x25519.ScalarMult(&a, &a, &uu) }); pan || !bytes.Equal(a[:], want) {
+			r.Violate("x25519/ScalarMult/aliased(dst=in)", fmt.Sprintf("%s got %x want %x", msg, a[:], want), c)
+		}
+		a = uu
+		if pan, msg := mon.Try(func() { x25519.ScalarMult(&a, &kk, &a) }); pan || !bytes.Equal(a[:], want) {
+			r.Violate("x25519/ScalarMult/aliased(dst=base)", fmt.Sprintf("%s got %x want %x", msg, a[:], want), c)
+		}
+		r.EvalN(2)
+	}
+	if (k[1]^u[2])&7 == 0 { // one pair in eight (the reference ladder dominates the cost)
+		a := kk
+		wantKK := ref.X25519(k, k)
+		if pan, msg := mon.Try(func() { x25519.ScalarMult(&a, &a, &a) }); pan || !bytes.Equal(a[:], wantKK) {
+			r.Violate("x25519/ScalarMult/aliased(all)", fmt.Sprintf("%s got %x want %x", msg, a[:], wantKK), c)
+		}
+		a = kk
+		var d2 [32]byte
+		if pan, msg := mon.Try(func() { x25519.ScalarMult(&d2, &a, &a) }); pan || !bytes.Equal(d2[:], wantKK) || a != kk {
+			r.Violate("x25519/ScalarMult/aliased(in=base)", fmt.Sprintf("%s got %x want %x", msg, d2[:], wantKK), c)
+		}
+		r.EvalN(2)
+	}
 	var got []byte
 	var err error
 	if pan, msg := mon.Try(func() { got, err = x25519.X25519(k, u) }); pan {
@@ -161,6 +186,13 @@ func (x *ctx) base(c Case) {
 		r.Violate("x25519/ScalarBaseMult/panic", msg, c)
 	} else if !bytes.Equal(dst[:], want) {
 		r.Violate("x25519/ScalarBaseMult", fmt.Sprintf("got %x want %x", dst[:], want), c)
+	}
+	a := kk
+	if pan, msg := mon.Try(func() { x25519.ScalarBaseMult(&a, &a) }); pan || !bytes.Equal(a[:], want) {
+		r.Violate("x25519/ScalarBaseMult/aliased(dst=in)", fmt.Sprintf("%s got %x want %x", msg, a[:], want), c)
+	}
+	if kk2 := kk; !bytes.Equal(kk2[:], k) {
+		r.Violate("x25519/ScalarBaseMult/mutates-input", "scalar modified", c)
 	}
 	g, err := x25519.X25519(k, x25519.Basepoint) // the fixed-base fast path (pointer identity)
 	if err != nil || !bytes.Equal(g, want) {
@@ -362,6 +394,40 @@ func main() {
 	}
 	for i := 0; i < r.Pick(3000, 150000); i++ {
 		cases = append(cases, Case{Kind: "pair", K: mon.Hex(mon.Bytes(rng, 32)), U: mon.Hex(mon.Bytes(rng, 32))})
+	}
+	// structured outputs: results with a single non-zero byte / 32-bit word / 64-bit word at every offset, obtained by
+	// constructing the peer value Q = [clamp(k)^-1]R for a prime-order R (curve or twist) whose u is the target: the
+	// all-zero test must not be confused by sparse results, and the output must be exact
+	nStruct := 0
+	for _, wbytes := range []int{1, 4, 8} {
+		for off := 0; off+wbytes <= 32; off += wbytes {
+			for rep := 0; rep < r.Pick(1, 6); rep++ {
+				k := mon.Bytes(rng, 32)
+				for try := 0; try < 200; try++ {
+					w := make([]byte, 32)
+					copy(w[off:], mon.Bytes(rng, wbytes))
+					if wbytes == 1 && try < 2 {
+						w[off] = byte(1 << (7 * try)) // 0x01, 0x80
+					}
+					w[31] &= 0x7f
+					t := ref.FromLE(w)
+					q := ref.X25519Preimage(k, t)
+					if q == nil {
+						continue
+					}
+					if !bytes.Equal(ref.X25519(k, q), w) {
+						mon.Fatalf("preimage construction failed: k=%x q=%x target=%x", k, q, w)
+					}
+					cases = append(cases, Case{Kind: "pair", K: mon.Hex(k), U: mon.Hex(q)})
+					r.HistN(fmt.Sprintf("pair/structured-output/width=%d", wbytes), 1)
+					nStruct++
+					break
+				}
+			}
+		}
+	}
+	if nStruct < 40 {
+		r.Inconclusive(fmt.Sprintf("only %d structured-output cases could be constructed", nStruct))
 	}
 	cases = append(cases, Case{Kind: "lengths"})
 	for i := 0; i < r.Pick(20, 400); i++ {
